@@ -561,7 +561,11 @@ Section Trig.
     | p :: rest => RRet (with_queue it (si_q it) (si_read it + 1) rest, Item p)
     | [] =>
         (q <- refill (refill_fuel log_size) (si_q it) ;;
-         let available := qr_available q in
+         (* [remaining = records - read] (positive here), [usize::try_from(..).unwrap_or(usize::MAX)]
+            is the identity on a 64-bit target; the last packet can hold more values than the
+            point cloud has points *)
+         let remaining := (pc_records (si_pc it) - si_read it)%N in
+         let available := N.min (qr_available q) remaining in
          '(buffer, q') <- rlift (pop_points (N.to_nat available) it q) ;;
          let buffer' := post_buffer (si_opts it) (si_rotation it) (si_translation it) buffer in
          match buffer' with
@@ -589,8 +593,7 @@ Section Trig.
     (it <- simple_open pc o ;; simple_collect fuel log_size it [])%rprog.
 End Trig.
 
-(** * The raw iteration, returning also the iterator it ends with (what is
-    left in the queues is what the simple iterator has converted ahead). *)
+(** * The raw iteration, returning also the iterator it ends with (used by the proofs). *)
 Fixpoint raw_collect_st (fuel : nat) (log_size : N) (it : raw_iter) (acc : list (list rvalue))
   : rprog (list (list rvalue) * raw_iter) :=
   match fuel with
